@@ -1,3 +1,5 @@
+//go:build verif
+
 // Package vsched is a cooperative, controlled scheduler: real goroutines, exactly one of which holds the
 // run token. Every operation on a shared synchronisation or I/O object of the code under test is preceded
 // by a call to Point, where the scheduler decides — from a recorded choice prefix, else by the default rule
@@ -10,7 +12,6 @@ package vsched
 
 import (
 	"fmt"
-	"hash/fnv"
 	"runtime"
 	"runtime/debug"
 	"sort"
@@ -64,6 +65,8 @@ type Exec struct {
 	mem      map[uintptr]*shadow
 	objClock map[any][]int
 	HashState func() uint64 // optional extra state supplied by the scenario
+	logHash   uint64
+	keep      []unsafe.Pointer
 }
 
 // X is the execution in progress (nil outside Run).
@@ -73,7 +76,9 @@ func Active() bool { return X != nil && X.active }
 
 func Logf(f string, a ...any) {
 	if X != nil {
-		X.Log = append(X.Log, fmt.Sprintf(f, a...))
+		l := fmt.Sprintf(f, a...)
+		X.Log = append(X.Log, l)
+		X.logHash = (X.logHash ^ strHash(l)) * 1099511628211
 	}
 }
 
@@ -219,6 +224,19 @@ func AwaitQuiescence() {
 	t.quiet = false
 }
 
+// Live returns "name@op" for every thread that has not finished (the caller included).
+func Live() []string {
+	var out []string
+	if Active() {
+		for _, t := range X.threads {
+			if !t.done {
+				out = append(out, t.Name+"@"+t.Op)
+			}
+		}
+	}
+	return out
+}
+
 // Daemon marks the calling thread as one that may legitimately remain blocked when the execution ends.
 func Daemon() {
 	if Active() {
@@ -226,24 +244,34 @@ func Daemon() {
 	}
 }
 
+var opHash = map[string]uint64{}
+
+func strHash(s string) uint64 {
+	if h, ok := opHash[s]; ok {
+		return h
+	}
+	h := uint64(14695981039346656037)
+	for i := 0; i < len(s); i++ {
+		h = (h ^ uint64(s[i])) * 1099511628211
+	}
+	opHash[s] = h
+	return h
+}
+
 func (x *Exec) stateHash() uint64 {
-	h := fnv.New64a()
+	h := uint64(14695981039346656037)
 	for _, t := range x.threads {
-		st := byte(0)
+		v := strHash(t.Op) + uint64(t.ID)*0x9e3779b97f4a7c15
 		if t.done {
-			st = 1
+			v ^= 0xdeadbeef
 		}
-		fmt.Fprintf(h, "%d:%s:%d;", t.ID, t.Op, st)
+		h = (h ^ v) * 1099511628211
 	}
-	fmt.Fprintf(h, "L%d", len(x.Log))
-	if len(x.Log) > 0 {
-		h.Write([]byte(x.Log[len(x.Log)-1]))
-	}
-	v := h.Sum64()
+	h = (h ^ x.logHash) * 1099511628211
 	if x.HashState != nil {
-		v ^= x.HashState() * 1099511628211
+		h ^= x.HashState() * 1099511628211
 	}
-	return v
+	return h
 }
 
 func (x *Exec) schedule(self *Thread) {
@@ -323,6 +351,45 @@ func (x *Exec) schedule(self *Thread) {
 	}
 }
 
+// Choose is a point of environment nondeterminism owned by the scheduler (e.g. map iteration order): it
+// returns a value in [0,n) taken from the choice prefix, default 0. Alternatives cost no preemption.
+func Choose(n int, label string) int {
+	x := X
+	if !Active() || n <= 1 {
+		return 0
+	}
+	choice := 0
+	if k := len(x.Points); k < len(x.Prefix) {
+		choice = x.Prefix[k]
+		if choice >= n {
+			x.Diverged = fmt.Sprintf("replay divergence at point %d: choice %d of %d values (choose %s)", k, choice, n, label)
+			x.finish()
+			<-x.cur.wake
+			panic(killedT{})
+		}
+	}
+	en := make([]int, n)
+	for i := range en {
+		en[i] = i
+	}
+	x.Points = append(x.Points, PointRec{Running: x.cur.ID, Enabled: en, Chosen: choice, RunningStill: false, Op: "choose:" + label})
+	return choice
+}
+
+// MapKeys returns the keys of m in an order chosen by the scheduler (every permutation is explored).
+func MapKeys[K comparable, V any](m map[K]V) []K {
+	keys := make([]K, 0, len(m))
+	for k := range m {
+		keys = append(keys, k)
+	}
+	sort.Slice(keys, func(i, j int) bool { return fmt.Sprint(keys[i]) < fmt.Sprint(keys[j]) })
+	for i := 0; i+1 < len(keys); i++ {
+		j := i + Choose(len(keys)-i, "map-order")
+		keys[i], keys[j] = keys[j], keys[i]
+	}
+	return keys
+}
+
 // Close closes a channel (a visible operation; release edge for the race check).
 func Close[T any](c chan T) {
 	Point("close", nil)
@@ -397,8 +464,12 @@ func Acquire(obj any) {
 type access struct {
 	tid   int
 	clock int
-	where string
+	write bool
+	label string
+	name  string
 }
+
+func (a *access) where() string { return fmt.Sprintf("%s %s by %s", rw(a.write), a.label, a.name) }
 
 type shadow struct {
 	w     *access
@@ -420,15 +491,16 @@ func Access(p unsafe.Pointer, write bool, label string) {
 	if s == nil {
 		s = &shadow{}
 		x.mem[uintptr(p)] = s
+		x.keep = append(x.keep, p) // keeps the object alive: its address cannot be reused within this execution
 	}
-	me := access{t.ID, t.vc[t.ID], fmt.Sprintf("%s %s by %s", rw(write), label, t.Name)}
+	me := access{t.ID, t.vc[t.ID], write, label, t.Name}
 	if s.w != nil && !t.hb(s.w) {
-		x.race(label, s.w.where, me.where)
+		x.race(label, s.w.where(), me.where())
 	}
 	if write {
 		for i := range s.reads {
 			if !t.hb(&s.reads[i]) {
-				x.race(label, s.reads[i].where, me.where)
+				x.race(label, s.reads[i].where(), me.where())
 			}
 		}
 		s.w = &me
